@@ -289,3 +289,18 @@ SPECS['C04'] = dict(
     quick=dict(workers=16, cases=200, size=100, timeout=1500, opts={'maxops': 60}),
     thorough=dict(workers=16, cases=10000, size=100, timeout=7200, opts={'maxops': 300}),
 )
+
+SPECS['C12'] = dict(
+    kind='native', drivers=['p_c12.cpp'], with_lib=True, **_DAEMON,
+    level='exploration',
+    technique='model-based testing of the unmodified echsd.c under a virtual-time libev stand-in: generated schedules of tasks with X-ECHS-MAX-SIMUL limits, clock advances and child exits (rapidcheck)',
+    level_text=('Same harness as C04. 1..4 tasks with FREQ=SECONDLY rules (period 1..6 s) and limits N in {1,2,3,random 1..62,62,unset} run in one daemon; the generator chooses when the clock advances '
+                '(incl. late wake-ups) and which running child exits when, so job durations range from shorter than the period to never ending. Every interposed executor spawn is judged against a '
+                'per-task counter of running executions: started iff fewer than N are running, otherwise started with --no-run (the NOT RUN report); tasks past their last occurrence with nothing running must be gone.'),
+    level_note='what echsx does with --no-run (the report itself) is echsx code and covered by reading only; N=0 is outside the stated domain',
+    rule=('schedule = 1..4 tasks x up to 80 (thorough 400) ops {ADV 1..12 s with lateness 1 ms..7.5 s, EXITN k, EXITALL, DUMP}; non-trivial = some task reached exactly N running executions and had an occurrence '
+          'refused; classes: limit-hit, runs-again-after-refusal, other-task-started-while-one-at-limit, N buckets; distinct = script text'),
+    assumptions=['a replaced task keeps the running executions of its previous version in its count (not exercised: C12 schedules do not replace tasks)'],
+    quick=dict(workers=16, cases=600, size=100, timeout=1500, opts={'maxops': 80}),
+    thorough=dict(workers=16, cases=6000, size=100, timeout=7200, opts={'maxops': 400}),
+)
